@@ -51,7 +51,15 @@ class Submodule(Module):
         if not self.ancestor_name:
             return
         if self.ancestor_name in obj_tree:
-            self.ancestor_obj = obj_tree[self.ancestor_name][0]
+            ancestor_obj = obj_tree[self.ancestor_name][0]
+            # A submodule naming itself or one of its descendants as parent
+            # would make get_ancestors() recurse forever
+            seen = [self]
+            obj = ancestor_obj
+            while obj is not None and not any(obj is s for s in seen):
+                seen.append(obj)
+                obj = getattr(obj, "ancestor_obj", None)
+            self.ancestor_obj = ancestor_obj if obj is None else None
 
     def require_inherit(self):
         return True
